@@ -8,7 +8,7 @@ using namespace vp;
 enum { OP_AND, OP_OR, OP_XOR, OP_NOT, OP_AND_A, OP_OR_A, OP_XOR_A,
        OP_SHL_S, OP_SHR_S, OP_SHL_SA, OP_SHR_SA, OP_SHL_V, OP_SHR_V, OP_SHL_VA, OP_SHR_VA,
        OP_SHL_CT, OP_SHR_CT, OP_ROTL_CT, OP_ROTR_CT, OP_ROTL_S, OP_ROTR_S, OP_ROTL_V, OP_ROTR_V,
-       OP_SC_ROTL, OP_SC_ROTR, OP_META, OP_COUNT };
+       OP_SC_ROTL, OP_SC_ROTR, OP_META, OP_USAGE, OP_COUNT };
 static const VpOp OPS[] = {
     {"and", {VK_INT, VK_INT_REL}, {}, 1}, {"or", {VK_INT, VK_INT_REL}, {}, 1}, {"xor", {VK_INT, VK_INT_REL}, {}, 1}, {"not", {VK_INT}, {}, 1},
     {"and_assign", {VK_INT, VK_INT_REL}, {}, 1}, {"or_assign", {VK_INT, VK_INT_REL}, {}, 1}, {"xor_assign", {VK_INT, VK_INT_REL}, {}, 1},
@@ -20,6 +20,9 @@ static const VpOp OPS[] = {
     {"rotl_vector", {VK_INT, VK_INT}, {}, 3}, {"rotr_vector", {VK_INT, VK_INT}, {}, 3},
     {"scalar_rotl", {VK_INT}, {SK_ANYLL}, 2}, {"scalar_rotr", {VK_INT}, {SK_ANYLL}, 2},
     {"metamorphic", {VK_INT, VK_AMT}, {SK_ANYLL}, 1},
+    // usage forms: the same object as value and amount / on both sides of a compound assignment (x >>= x, x &= x, x = rotl(x, x) ...), and the reference
+    // returned by a compound assignment used as an lvalue ((x <<= a) >>= a ...); s0 = form
+    {"aliased_and_chained_forms", {VK_INT, VK_AMT, VK_INT}, {SK_SMALL}, 2},
 };
 enum { CL_AMT0, CL_AMT_BITS_M1, CL_AMT_BITS, CL_DISTINCT_NEIGHBOURS, CL_TOPBIT_SHR, CL_ROT_NEG, CL_ROT_MULT, CL_ORDINARY };
 static const char* const CLASSES[] = {"amount_zero", "amount_bits_minus_1", "amount_equals_bits", "distinct_amounts_in_neighbouring_lanes",
@@ -93,6 +96,38 @@ template<class V> static void run(const VpCase* c, VpOutcome* o) {
         if (k < 0) { o->classes |= 1u << CL_ROT_NEG; nt = true; }
         if ((k % (int64_t)B) == 0) { o->classes |= 1u << CL_ROT_MULT; nt = true; }
     };
+    if (op == OP_USAGE) {
+        const unsigned form = (unsigned)(s < 0 ? -s : s) % 14;
+        uint64_t xl[VP_MAXL], al[VP_MAXL], cl[VP_MAXL];
+        for (unsigned i = 0; i < W; ++i) { xl[i] = c->v[0][i] & m; al[i] = c->v[1][i] % (B + 1); cl[i] = c->v[2][i] & m; if (form <= 1 || form == 7) xl[i] %= (B + 1); }   // a value that is its own shift amount lies in 0..bits
+        V x = mk<V>(xl), am = mk<V>(al), cz = mk<V>(cl);
+        auto rotk = [&](uint64_t v) { return elem<T>::is_signed ? elem<T>::sval(v) : (int64_t)(v % B); };
+        static const char* const nm[14] = {"x <<= x", "x >>= x", "x &= x", "x |= x", "x ^= x", "x = rotl(x, x)", "x = rotr(x, x)", "x = x << x",
+                                           "(x <<= a) >>= a", "(x >>= a) <<= a", "(x &= c) |= a", "(x |= c) ^= a", "(x ^= c) &= a", "(x <<= a) |= c"};
+        for (unsigned i = 0; i < W; ++i) {
+            const uint64_t v = xl[i], k = al[i], z = cl[i];
+            switch (form) {
+            case 0: case 7: exp[i] = r_shl<T>(v, v); break; case 1: exp[i] = r_shr<T>(v, v); break;
+            case 2: case 3: exp[i] = v; break; case 4: exp[i] = 0; break;
+            case 5: exp[i] = r_rotl<T>(v, rotk(v)); break; case 6: exp[i] = r_rotr<T>(v, rotk(v)); break;
+            case 8: exp[i] = r_shr<T>(r_shl<T>(v, k), k); break; case 9: exp[i] = r_shl<T>(r_shr<T>(v, k), k); break;
+            case 10: exp[i] = ((v & z) | k) & m; break; case 11: exp[i] = ((v | z) ^ k) & m; break; case 12: exp[i] = ((v ^ z) & k) & m; break;
+            default: exp[i] = (r_shl<T>(v, k) | z) & m; break;
+            }
+            amt_class(form <= 1 || form == 7 ? v : k);
+        }
+        switch (form) {
+        case 0: x <<= x; break; case 1: x >>= x; break; case 2: x &= x; break; case 3: x |= x; break; case 4: x ^= x; break;
+        case 5: x = avel::rotl(x, x); break; case 6: x = avel::rotr(x, x); break; case 7: x = x << x; break;
+        case 8: (x <<= am) >>= am; break; case 9: (x >>= am) <<= am; break; case 10: (x &= cz) |= am; break; case 11: (x |= cz) ^= am; break;
+        case 12: (x ^= cz) &= am; break; default: (x <<= am) |= cz; break;
+        }
+        rd<V>(x, got);
+        if (nt) o->nontrivial = 1; else o->classes |= 1u << CL_ORDINARY;
+        char tag[96]; std::snprintf(tag, sizeof tag, "usage:%s", nm[form]);
+        cmp_lanes(o, W, exp, got, nullptr, tag, nm[form]);
+        return;
+    }
     switch (op) {
     case OP_AND: for (unsigned i = 0; i < W; ++i) exp[i] = (c->v[0][i] & bl[i]) & m; rd<V>(a & b, got); break;
     case OP_OR:  for (unsigned i = 0; i < W; ++i) exp[i] = (c->v[0][i] | bl[i]) & m; rd<V>(a | b, got); break;
@@ -215,6 +250,18 @@ extern "C" void vp_enum(int tier, uint64_t seed, uint32_t shard, uint32_t nshard
         if (B == 8) { L.clear(); for (unsigned x = 0; x < 256; ++x) L.push_back(x); }
         if (B == 16 && tier >= 1) { L.clear(); for (unsigned x = 0; x < 65536; ++x) L.push_back(x); }
         const size_t n = L.size();
+        if ((job++ % nshards) == shard) {
+            VpCase c; std::memset(&c, 0, sizeof c); c.target = t; c.op = OP_USAGE;
+            const std::vector<uint64_t> S = vpl::int_lattice_small(B);
+            for (unsigned form = 0; form < 14; ++form) {
+                size_t fill = 0; uint64_t rot = seed + form;
+                for (size_t i = 0; i < S.size() + B + 1; ++i) {
+                    unsigned lane = (unsigned)((fill + rot) % W);
+                    c.v[0][lane] = i < S.size() ? S[i] : (i - S.size()); c.v[1][lane] = (i + lane + form) % (B + 1); c.v[2][lane] = S[(i * 7 + 3) % S.size()];
+                    if (++fill == W || i + 1 == S.size() + B + 1) { c.s[0] = form; emit(&c, ctx); fill = 0; ++rot; }
+                }
+            }
+        }
         for (unsigned op = 0; op < OP_META; ++op) {
             if ((job++ % nshards) != shard) continue;
             VpCase c; std::memset(&c, 0, sizeof c); c.target = t; c.op = op;
